@@ -23,7 +23,8 @@ from . import parse as P
 
 
 class Inconclusive(Exception):
-    pass
+    def __init__(self, *a):
+        Exception.__init__(self, *[(x[:600] + ' ...' if isinstance(x, str) and len(x) > 600 else x) for x in a])
 
 
 class OverBudget(Inconclusive):
@@ -140,7 +141,7 @@ DISCR = {'None': 0, 'Some': 1, 'Ok': 0, 'Err': 1, 'Continue': 0, 'Return': 1, 'I
 # state
 
 class Frame:
-    __slots__ = ('fid', 'fn', 'locals', 'bb', 'si', 'dest', 'ret_bb', 'caller')
+    __slots__ = ('fid', 'fn', 'locals', 'bb', 'si', 'dest', 'ret_bb', 'caller', 'cgen')
 
     def copy(self):
         f = Frame()
@@ -152,6 +153,7 @@ class Frame:
         f.dest = self.dest
         f.ret_bb = self.ret_bb
         f.caller = self.caller
+        f.cgen = getattr(self, 'cgen', None)
         return f
 
 
@@ -337,6 +339,9 @@ def split_as(s):
 
 # ------------------------------------------------------------------------------------------------
 # executor
+
+_ARRAY_LEN_PARAM = re.compile(r'^&?(?:mut )?\[.*; ([A-Z][A-Z0-9_]*)\]$')
+
 
 class Executor:
     def __init__(self, program, summaries=None, timeout_ms=20000, max_steps=200000):
@@ -583,11 +588,32 @@ class Executor:
             return Ref(self.const_frames[f.name], 0, ())
         if k == 'named':
             name = c[1]
+            m = re.match(r'^<static\(DefId\(\d+:\d+ ~ \w+\[\w+\]::(.+)\)\)>$', name)
+            if m:
+                # reference to a static by definition path; the dump prints the shortest unambiguous path of the static
+                path = m.group(1)
+                cands = [x for x in self.prog.fns if x.kind == 'const' and (x.name == path or path.endswith('::' + x.name) or x.name.endswith('::' + path))]
+                if len(cands) != 1:
+                    raise Inconclusive('static %s: %d candidates' % (path, len(cands)))
+                self.eval_const_fn(cands[0], path)
+                return Ref(self.const_frames[cands[0].name], 0, ())
             last = [s for s in P.split_top(name, ':') if s][-1]
             last = last.strip()
             if last in self.discr:
                 return E(last)          # constant unit variant, e.g. `const LexerErrorKind::<E>::InvalidToken`
             cands = self.prog.consts.get(last, [])
+            if re.match(r'^[A-Z][A-Z0-9_]*$', name):
+                # const generic parameter of the current function, or - inside a closure - of the generic function
+                # that created it (closures run inside the dynamic extent of their creator)
+                me = fr.fn.name if fr is not None and fr.fn is not None else ''
+                for fid in reversed(st.stack):
+                    f2 = st.frames.get(fid)
+                    if f2 is None or f2.fn is None:
+                        continue
+                    if f2.fid == fr.fid or me.startswith(f2.fn.name + '::{closure'):
+                        cg = getattr(f2, 'cgen', None)
+                        if cg and name in cg:
+                            return S(64, cg[name])
             if len(cands) == 1:
                 return self.eval_const_fn(cands[0][1], name)
             head = call_key(name)[0]
@@ -880,6 +906,15 @@ class Executor:
             if name.startswith('Shl'):
                 return S(w, (x << sh) & mask(w))
             return S(w, x >> sh)
+        if name in ('Shl', 'ShlUnchecked') and b.conc() and not isbv and w > 1 and 0 <= y < w:
+            # shift of an integer-encoded value by a constant: multiplication; whether bits are shifted out is
+            # decided here (as for additions), so the common no-wrap case stays linear
+            m = 1 << w
+            r = x * (1 << y)
+            feasible, _ = self.sat_under(st, r >= m)
+            return S(w, (r % m) if feasible else r)
+        if name in ('Shr', 'ShrUnchecked') and b.conc() and not isbv and w > 1 and 0 <= y < w:
+            return S(w, x / (1 << y))       # z3 Int division of a non-negative term = floor
         if name in ('Div', 'Rem') and conc and y != 0:
             return S(w, x // y if name == 'Div' else x % y)
         raise Inconclusive('binop ' + name)
@@ -898,6 +933,21 @@ class Executor:
         fr.dest = dest
         fr.ret_bb = ret_bb
         fr.caller = caller_fid
+        # const generic parameters that are array lengths of parameters (`_2: &[T; N]`): bound from the actual argument
+        cg = None
+        for i, t in enumerate(getattr(f, 'arg_types', None) or []):
+            m = _ARRAY_LEN_PARAM.search(t)
+            if m and i < len(args):
+                v = args[i]
+                try:
+                    if isinstance(v, Ref):
+                        v = self.deref(st, v)
+                except Inconclusive:
+                    v = None
+                if isinstance(v, A):
+                    cg = cg or {}
+                    cg[m.group(1)] = len(v.f)
+        fr.cgen = cg
         st.frames[fr.fid] = fr
         st.stack.append(fr.fid)
         return fr
@@ -943,7 +993,7 @@ class Executor:
             st.steps += 1
             if st.steps > self.max_steps:
                 raise Inconclusive('step bound exceeded')
-            if self.deadline is not None and (st.steps & 255) == 0 and time.time() > self.deadline:
+            if self.deadline is not None and (st.steps & 255) == 0 and time.process_time() > self.deadline:
                 raise OverBudget('time budget for this definition exhausted')
             fr = st.frames[st.stack[-1]]
             block = fr.fn.blocks[fr.bb]
